@@ -210,4 +210,80 @@ def pct_bugs():
     return out
 
 
-CORPUS = {"corpus_sync_pb": sync_pb, "corpus_sync_big": sync_big, "corpus_deadlock": deadlock, "corpus_locks": locks, "corpus_sync": sync, "corpus_mpsc": mpsc}
+def sem():
+    """BatchSemaphore shapes: grant-then-close, close-then-release, cancellation of the head of a fair queue,
+    batches larger than one, unfair barging."""
+    P = []
+    for fair in (1, 0):
+        b = 200 if fair else 220
+        # a queued waiter is granted by release, then the semaphore is closed before the waiter runs again
+        P.append(prog(b + 0, "corpus_sem", [
+            [op("spawn", v=1), op("release", o=0, v=1), op("close", o=0), op("avail", o=0), op("join", v=1)],
+            [op("acquire", o=0, v=1), op("avail", o=0)]], sems=[(0, fair)]))
+        # close races with a blocked acquire and a release
+        P.append(prog(b + 1, "corpus_sem", [
+            [op("spawn", v=1), op("spawn", v=2), op("close", o=0), op("join", v=1), op("join", v=2), op("avail", o=0)],
+            [op("acquire", o=0, v=2), op("release", o=0, v=2)],
+            [op("release", o=0, v=1), op("try_acquire", o=0, v=1)]], sems=[(1, fair)]))
+        # head of the queue wants 2 (only 1 available), a follower wants 1; the head is cancelled
+        P.append(prog(b + 2, "corpus_sem", [
+            [op("spawn_future", v=1), op("spawn_future", v=2), op("yield"), op("abort", v=1), op("bo_begin"), op("await_join", v=2), op("bo_end"), op("avail", o=0)],
+            [op("acquire", o=0, v=2), op("store", o=0, v=1)],
+            [op("acquire", o=0, v=1), op("store", o=0, v=2)]], sems=[(1, fair)], atomics=[0], kinds=["thread", "future", "future"]))
+        # cancelled waiter in the middle / a granted waiter that is cancelled before it is polled again
+        P.append(prog(b + 3, "corpus_sem", [
+            [op("spawn_future", v=1), op("spawn_future", v=2), op("release", o=0, v=1), op("abort", v=1), op("bo_begin"), op("await_join", v=2), op("bo_end"), op("avail", o=0)],
+            [op("acquire", o=0, v=1), op("ayield"), op("release", o=0, v=1)],
+            [op("acquire", o=0, v=1), op("store", o=0, v=2)]], sems=[(0, fair)], atomics=[0], kinds=["thread", "future", "future"]))
+        # batches: 3 released in two steps to waiters wanting 2 and 1
+        P.append(prog(b + 4, "corpus_sem", [
+            [op("spawn", v=1), op("spawn", v=2), op("release", o=0, v=1), op("release", o=0, v=2), op("join", v=1), op("join", v=2), op("avail", o=0)],
+            [op("acquire", o=0, v=2), op("avail", o=0)],
+            [op("acquire", o=0, v=1), op("try_acquire", o=0, v=1)]], sems=[(0, fair)]))
+    return P
+
+
+def async_wake():
+    """Wakes that arrive while the target is inside a poll: blocked on a channel (TaskState::Blocked), on a
+    mutex (sleeping in the inner block_on), running; and wakes through a waker handed out in an earlier poll."""
+    P = []
+    K3 = ["thread", "future"]
+    # the wake arrives while the future is blocked in a std recv inside its poll
+    P.append(prog(260, "corpus_async", [
+        [op("clone_tx", o=0, v=0, w=1), op("spawn_future", v=1), op("wake_only", o=0), op("send", o=0, v=5, w=1),
+         op("bo_begin"), op("await_join", v=1), op("bo_end")],
+        [op("reg_flag", o=0), op("recv", o=0), op("suspend"), op("store", o=0, v=1)]],
+        chans=[-1], atomics=[0], nflags=1, kinds=K3))
+    # ... while it is blocked on a mutex held by main
+    P.append(prog(261, "corpus_async", [
+        [op("lock", o=0, w=0), op("spawn_future", v=1), op("yield"), op("wake_only", o=0), op("unlock", w=0),
+         op("bo_begin"), op("await_join", v=1), op("bo_end")],
+        [op("reg_flag", o=0), op("lock", o=0, w=0), op("unlock", w=0), op("suspend"), op("store", o=0, v=1)]],
+        nmutex=1, atomics=[0], nflags=1, kinds=K3))
+    # ... while it is parked on a barrier inside its poll, woken by another future
+    P.append(prog(262, "corpus_async", [
+        [op("spawn_future", v=1), op("spawn_future", v=2), op("barrier_wait", o=0), op("bo_begin"), op("await_join", v=1), op("bo_end")],
+        [op("reg_flag", o=0), op("barrier_wait", o=0), op("suspend"), op("store", o=0, v=1)],
+        [op("wake_only", o=0), op("wake_only", o=0)]],
+        barriers=[2], atomics=[0], nflags=1, kinds=["thread", "future", "future"]))
+    # a flag future whose wake comes while the task is in a later poll, blocked in recv; then it suspends
+    P.append(prog(263, "corpus_async", [
+        [op("clone_tx", o=0, v=0, w=1), op("spawn_future", v=1), op("set_flag", o=0), op("wake_only", o=1), op("send", o=0, v=5, w=1),
+         op("wake_only", o=1), op("bo_begin"), op("await_join", v=1), op("bo_end")],
+        [op("reg_flag", o=1), op("await_flag", o=0), op("recv", o=0), op("suspend")]],
+        chans=[-1], nflags=2, kinds=K3))
+    # block_on in a thread: the wake arrives while the thread is blocked in recv inside the block_on section
+    P.append(prog(264, "corpus_async", [
+        [op("clone_tx", o=0, v=0, w=1), op("spawn", v=1), op("bo_begin"), op("reg_flag", o=0), op("recv", o=0), op("suspend"), op("bo_end"), op("join", v=1)],
+        [op("wake_only", o=0), op("send", o=0, v=5, w=1), op("wake_only", o=0)]],
+        chans=[-1], nflags=1))
+    # abort while blocked in a recv inside the poll: takes effect at the next Pending
+    P.append(prog(265, "corpus_async", [
+        [op("clone_tx", o=0, v=0, w=1), op("spawn_future", v=1), op("abort", v=1), op("send", o=0, v=5, w=1),
+         op("bo_begin"), op("await_join", v=1), op("bo_end")],
+        [op("recv", o=0), op("store", o=0, v=1), op("suspend"), op("store", o=0, v=2)]],
+        chans=[-1], atomics=[0], nflags=1, kinds=K3))
+    return P
+
+
+CORPUS = {"corpus_async": async_wake, "corpus_sem": sem, "corpus_sync_pb": sync_pb, "corpus_sync_big": sync_big, "corpus_deadlock": deadlock, "corpus_locks": locks, "corpus_sync": sync, "corpus_mpsc": mpsc}
